@@ -143,6 +143,9 @@ def closure_type_of(ty):
     return None
 
 
+_CALL_SITES = {}
+
+
 def inline_once(rec, fns, vocab, depth_of, stats):
     """One pass over the blocks of `rec`: inline the first-level helper calls.  Returns True if something changed."""
     changed = False
@@ -164,7 +167,8 @@ def inline_once(rec, fns, vocab, depth_of, stats):
         elif callee not in fns or not is_helper(callee, vocab):
             continue
         crec = fns[callee]
-        if callee == rec["path"] or len(crec["blocks"]) > MAX_BLOCKS:
+        if callee == rec["path"] or (len(crec["blocks"]) > MAX_BLOCKS and not (_CALL_SITES.get(callee) == 1 and len(crec["blocks"]) <= 4 * MAX_BLOCKS)):
+            # (a helper with a single call site is inlined whatever its size: a function split in two for readability)
             continue
         d = depth_of.get((rec["path"], b), 0)
         if d >= MAX_DEPTH:
@@ -1810,6 +1814,54 @@ def thread_shapes(rec, stats, budget=40):
                 stats.setdefault(rec["path"], []).append("thread:shape")
                 continue
             break
+        if progressed and appended and sum(len(x) for x in appended) <= 6:
+            # the straight-line tail after the last resolved switch (e.g. `_0 = (r as Ok).0; goto return`): keep it on this path too, so the
+            # value returned is the one built on this path and not a merge of all paths
+            for stl in appended:
+                pb["stmts"] = list(pb["stmts"]) + stl
+            pb["term"] = {"k": "goto", "target": tgt}
+    return changed
+
+
+def dup_const_joins(rec, stats):
+    """`_0 = Wrap(match e { A => c1, B => c2, .. })`: the wrapping statement sits in a join block fed by arms that only store a constant.
+    The join block's statements are copied into each arm (tail duplication), which gives the per-arm shape `A => Wrap(c1)` that rustc emits for
+    the hand-written `match e { A => Wrap(c1), .. }`."""
+    preds = _preds(rec)
+    changed = False
+    for J, jb in enumerate(rec["blocks"]):
+        if jb.get("cleanup") or jb["term"]["k"] not in ("goto", "return") or not (1 <= len(jb["stmts"]) <= 2):
+            continue
+        if not all(st["k"] == "assign" for st in jb["stmts"]):
+            continue
+        last = jb["stmts"][-1]
+        if last["place"] != {"local": 0, "proj": []} or last["rv"]["k"] != "aggregate":
+            continue
+        ops = [o for o in last["rv"].get("ops", []) if o.get("k") in ("move", "copy") and not o["place"]["proj"]]
+        if len(ops) != 1:
+            continue
+        x = ops[0]["place"]["local"]
+        ps = sorted(preds.get(J, ()))
+        if len(ps) < 2:
+            continue
+        ok = True
+        for P in ps:
+            pb = rec["blocks"][P]
+            if pb["term"]["k"] != "goto" or pb.get("cleanup") or P == J:
+                ok = False
+                break
+            defs = [st for st in pb["stmts"] if st["k"] == "assign" and st["place"] == {"local": x, "proj": []}]
+            if len(defs) != 1 or defs[0]["rv"]["k"] != "use" or defs[0]["rv"]["op"].get("k") != "const":
+                ok = False
+                break
+        if not ok:
+            continue
+        for P in ps:
+            pb = rec["blocks"][P]
+            pb["stmts"] = list(pb["stmts"]) + copy.deepcopy(jb["stmts"])
+            pb["term"] = copy.deepcopy(jb["term"])
+        stats.setdefault(rec["path"], []).append("dup:const-join")
+        changed = True
     return changed
 
 
@@ -2015,11 +2067,22 @@ def apply(prog):
             touched.add(p)
         rec.pop("_expand_filter", None)
     depth_of = {}
+    _CALL_SITES.clear()
+    for p, rec in recs.items():
+        for blk in rec["blocks"]:
+            t_ = blk["term"]
+            if t_["k"] == "call":
+                c_ = t_.get("resolved") or t_.get("callee")
+                if c_ in recs:
+                    _CALL_SITES[c_] = _CALL_SITES.get(c_, 0) + 1
     for p, rec in recs.items():
         for _ in range(MAX_DEPTH + 1):
             before = len(rec["blocks"])
             if not inline_once(rec, recs, vocab, depth_of, stats):
                 break
+            touched.add(p)
+    for p, rec in recs.items():
+        if dup_const_joins(rec, stats):
             touched.add(p)
     for p in list(touched):
         reresolve(recs[p], stats)
@@ -2027,9 +2090,9 @@ def apply(prog):
         for _ in range(6):
             if not thread_jumps(recs[p], stats):
                 break
-        if any(x.startswith("fold:try") for x in stats.get(p, [])):
+        if any(x.startswith(("fold:try", "desugar:")) for x in stats.get(p, [])) or any(x in recs for x in stats.get(p, [])):
             for _ in range(3):
-                if not thread_shapes(recs[p], stats):
+                if not thread_shapes(recs[p], stats, budget=600):
                     break
         fold_from_residual(recs[p], stats)
         recs[p].pop("_folded_try", None)
